@@ -12,6 +12,7 @@ import (
 	"time"
 
 	"github.com/zmap/zcrypto/x509"
+	zlint "github.com/zmap/zlint/v3"
 	"github.com/zmap/zlint/v3/lint"
 	"verif/harness/internal/corpus"
 	"verif/harness/internal/ev"
@@ -155,7 +156,18 @@ func cmdRSA(args []string) {
 				mu.Unlock()
 				names, st = append(names, name), append(st, r.Obs)
 				if name == "e_rsa_fermat_factorization" && r.Obs == 6 {
-					m := factorsRe.FindStringSubmatch(r.Details)
+					// the factorisation a user reads is the one in the result set of a Lint*Ex call (same configuration)
+					details := r.Details
+					if fr, err := lint.GlobalRegistry().Filter(lint.FilterOptions{IncludeNames: []string{name}}); err == nil {
+						fr.SetConfiguration(cfg)
+						if rs := zlint.LintCertificateEx(cert, fr); rs != nil && rs.Results[name] != nil {
+							if rs.Results[name].Status != lint.Error {
+								factorsOK = false
+							}
+							details = rs.Results[name].Details
+						}
+					}
+					m := factorsRe.FindStringSubmatch(details)
 					if m == nil {
 						factorsOK = false
 					} else {
@@ -212,7 +224,7 @@ func cmdRSA(args []string) {
 	fermatLens := map[int]bool{1024: true, 2048: true, 3072: true}
 	if tier != "thorough" {
 		bitLens = []int{1023, 1024, 2047, 2048, 2049, 3071, 3072}
-		fermatLens = map[int]bool{1024: true}
+		fermatLens = map[int]bool{1024: true, 3072: true}
 	}
 	// product of all primes below 752: a number is free of factors 2..751 iff coprime to it (math/big GCD)
 	primorial := big.NewInt(1)
@@ -279,7 +291,10 @@ func cmdRSA(args []string) {
 		}
 		// (c) close primes: q = nextprime(p + gap); the iteration at which Fermat meets (p+q)/2 is computed with math/big
 		if fermatLens[L] {
-			for _, gap := range []int64{2, 1000, 1 << 20} {
+			for gi, gap := range []int64{2, 1000, 1 << 20} {
+				if tier != "thorough" && L > 2048 && gi > 0 {
+					break // quick: one large close-prime modulus (its factorisation is a long text)
+				}
 				p := prime(L / 2)
 				q := new(big.Int).Add(p, big.NewInt(gap))
 				q.SetBit(q, 0, 1)
